@@ -86,6 +86,21 @@ theorem code_armor_roundtrip {δ ω : Type} (W : GoTie.ArmorWEnv δ ω) (D : GoT
       GoTie.codeDrain D ⟨W.absD a2.dst, false, 0, 0, List.replicate 48 0, none⟩ sizes = .ok (g', ps.flatten, Go.io_EOF) :=
   GoTie.code_armor_roundtrip W D ww0 d0 h0 hd0 ps sizes hpos hlong
 
+/-- "armor failures carry the armor error class", about the code (`Props.C08.armor_errors_typed` holds of the model by
+    the type of its outcomes alone): from related states the translated `Read` returns, and what it reports is nil,
+    io.EOF or `*armor.Error` — nothing else, whatever the text and the buffer -/
+theorem code_armor_errors_typed (E : GoTie.B64DecEnv) (g : armor_armoredReader) (m : AReader) (h : GoTie.ARel g m) (p : Bytes) :
+    ∃ res, armor_armoredReader_Read E.Dec g p = .ok res ∧
+      (res.2.1 = none ∨ res.2.1 = Go.io_EOF ∨ res.2.1 = some ⟨"armor.Error", 0, []⟩) := by
+  obtain ⟨res, hres, _, _, herr, _⟩ := armor_read_tie E g m h p
+  refine ⟨res, hres, ?_⟩
+  generalize (m.read1 1024 false p.length).2.2 = o at herr
+  cases o with
+  | none => exact Or.inl herr
+  | some e => cases e with
+    | eof => exact Or.inr (Or.inl herr)
+    | err => exact Or.inr (Or.inr herr)
+
 /-- non-vacuity of the round trip: the canonical writer environment, the model's strict decoder, any input — the
     conclusion holds of one-byte reads -/
 theorem code_armor_roundtrip_instance (ps : List Bytes) :
